@@ -480,6 +480,18 @@ func TestLbvcScenarioHighWatermark(t *testing.T) {
 				}
 			}
 			read(1)
+			if !park {
+				// the reader now sits at the watermark (with small segments: at the very end of a sealed segment);
+				// one more read must wait, not move on into uncommitted data
+				ctx, cancel := context.WithTimeout(context.Background(), 150*time.Millisecond)
+				if _, off, _, _, err := r.ReadMessage(ctx, hb); err == nil {
+					if hw := l.HighWatermark(); off > hw {
+						problems = append(problems, desc+fmt.Sprintf(": a committed reader positioned at the watermark %d was handed offset %d", hw, off))
+					}
+					got = append(got, off)
+				}
+				cancel()
+			}
 			for i := 3; i < 12; i++ {
 				l.Append([]*Message{lbvcMsg(i, 0)})
 			}
